@@ -244,7 +244,11 @@ impl Array {
             );
         });
 
-        let backward_op: Option<BackwardOp> = if !a.is_tracked.get() && !b.is_tracked.get() {
+        let is_c_tracked = c.map_or(false, |c| c.is_tracked.get());
+        let backward_op: Option<BackwardOp> = if !a.is_tracked.get()
+            && !b.is_tracked.get()
+            && !is_c_tracked
+        {
             None
         } else {
             Some(Rc::new(move |c, t, x| {
